@@ -12,6 +12,8 @@ from hypothesis import strategies as st
 def build(desc):
     """Returns (A, v, k, reach) with k the Krylov dimension of (A, v) and reach the eigenvalues seen by v."""
     rng = np.random.default_rng(desc['seed'])
+    if desc['kind'] in ('herm_kernel', 'general_shift'):
+        return _build_exact(desc, rng)
     mult = desc['mult']; support = desc['support']
     nd = len(mult)
     n = int(sum(mult))
@@ -86,6 +88,36 @@ def build(desc):
     return A, v, k, reach
 
 
+def _build_exact(desc, rng):
+    """
+    Maps whose Krylov chain ends *exactly* (A v_j == 0 bit for bit), as for ladder operators, nilpotent blocks or a
+    start vector in the kernel: direct sums without any rotation, so no rounding hides the exact zero.
+      herm_kernel  : A = B (+) 0  with Hermitian B, start vector = a basis vector of the zero block  -> k = 1
+      general_shift: A = c * shift_p (+) G, start vector = e_0 of the shift block                     -> k = p
+    """
+    n = int(sum(desc['mult']))
+    scale = float(desc['scale'])
+    if desc['kind'] == 'herm_kernel':
+        nz = max(1, n // 3)
+        nb = n - nz
+        A = np.zeros((n, n), dtype=complex)
+        if nb > 0:
+            X = rng.normal(size=(nb, nb)) + 1j * rng.normal(size=(nb, nb))
+            A[:nb, :nb] = scale * (X + X.conj().T) / 2
+        v = np.zeros(n, dtype=complex)
+        v[nb + int(rng.integers(0, nz))] = 1.7 - 0.3j
+        return A, v, 1, np.array([0.0])
+    p = max(1, min(n, 1 + int(sum(desc['support']))))
+    A = np.zeros((n, n), dtype=complex)
+    for i in range(p - 1):
+        A[i + 1, i] = scale
+    if n > p:
+        A[p:, p:] = scale * (rng.normal(size=(n - p, n - p)) + 1j * rng.normal(size=(n - p, n - p)))
+    v = np.zeros(n, dtype=complex)
+    v[0] = 2.0
+    return A, v, p, np.array([0.0])
+
+
 @st.composite
 def krylov_desc(draw, nmax=14, kinds=('herm_real', 'herm_complex'), extra_m=3):
     nd = draw(st.sampled_from(list(range(1, min(nmax, 10) + 1))))
@@ -114,6 +146,10 @@ def krylov_desc(draw, nmax=14, kinds=('herm_real', 'herm_complex'), extra_m=3):
     real_start = bool(kind == 'herm_complex' and draw(st.sampled_from(range(4))) == 3)
     # a real start vector for a complex Hermitian map overlaps every eigenspace: k = number of distinct eigenvalues
     kd = nd if real_start else sum(support)
+    if kind == 'herm_kernel':
+        kd = 1
+    elif kind == 'general_shift':
+        kd = max(1, min(n, 1 + sum(support)))
     rel = draw(st.sampled_from(['below', 'below', 'at', 'above', 'any']))
     if rel == 'below' and kd >= 2:
         m = draw(st.sampled_from(list(range(1, kd))))
